@@ -15,3 +15,6 @@ func VerifC19DefaultECS() (ECSConfig, error) {
 	_, err := toml.Decode(fmt.Sprintf(defaultConfig, configver), &c)
 	return c.ECS, err
 }
+
+// VerifC19ConfigVer exposes the configuration version Load expects (accessor only).
+func VerifC19ConfigVer() string { return configver }
